@@ -489,6 +489,19 @@ func checkExecuteOrdering(c *Ctx, cmds, diffpk *packages.Package) {
 		c.Bad(rule, "commands.DiffCommand.Execute › diffs = diffs.FilterIgnores(ignores)", c.posOf(cmds, fd.Pos()), "no in-place filtering of the computed differences found")
 		return
 	}
+	// the filter is applied whatever the differences are: a top-level statement of Execute
+	topLevel := false
+	for _, st := range fd.Body.List {
+		if st.Pos() == filterPos {
+			topLevel = true
+		}
+	}
+	c.Check(topLevel, rule, "commands.DiffCommand.Execute › the ignore file is applied unconditionally", c.posOf(cmds, filterPos), "top-level statement",
+		"FilterIgnores runs under a condition: for some comparisons (e.g. without breaking differences) the ignore file is not applied and a report fed back as ignore file does not empty the next one")
+	// the filter itself cannot panic on its sizes
+	if nm := checkMakeSizes(c, rule, diffpk); nm == 0 {
+		c.Ok(rule, "diff › make(…) sizes", "", "no make with a computed difference as size")
+	}
 	reports := 0
 	bad := false
 	ast.Inspect(fd.Body, func(n ast.Node) bool {
